@@ -236,6 +236,41 @@ fn run_c06_case_inner(p: &Program, cfg: &Config, max_iters_for_injection: usize,
             }
         }
     }
+    // F-two: two faults at once - "panic whenever op (t, pc) is reached" under every branch budget
+    // below the need: whichever strikes first must unwind to the caller (the panic's destructors
+    // run loom operations right at the limit)
+    let mut two_faults = 0u64;
+    if matches!(dry.status, LoomStatus::Completed) && dry.iterations <= max_iters_for_injection && tr.max_path >= 2 && tr.max_path <= 40 && rep.violations.is_empty() {
+        // the op reached last in the first iteration of the thread that ran most
+        if let Some((&(tid, pc), _)) = tr.reached.iter().filter(|(_, its)| its.first() == Some(&1)).max_by_key(|((t, pc), _)| (*pc, *t)) {
+            let marker = 9001u32;
+            let mut c2 = cfg.clone();
+            for b in 1..tr.max_path {
+                c2.max_branches = b;
+                set_panic_fault(Some(PanicFault { tid, pc, hit: 1, marker }));
+                set_real_drops(true);
+                let (run, _) = trace_run(p, &c2);
+                set_real_drops(false);
+                set_panic_fault(None);
+                two_faults += 1;
+                let ok = matches!(&run.status, LoomStatus::Failed { class: FailClass::BranchLimit, .. })
+                    || matches!(&run.status, LoomStatus::Failed { class: FailClass::UserPanic(m), .. } if *m == marker);
+                if !ok {
+                    rep.violations.push(Violation {
+                        kind: "panic_propagation".into(),
+                        detail: format!("a panic whenever {} (T{} pc{}) is reached, under max_branches = {}: expected that panic or the branch-limit panic to reach the caller, got {:?}", p.threads[tid as usize][pc as usize], tid, pc, b, run.status),
+                        known: None,
+                        evidence: json!({"max_branches": b}),
+                    });
+                    break;
+                }
+                check_probe(&mut rep, format!("a panic at T{} pc{} under max_branches = {}", tid, pc, b));
+                if !rep.violations.is_empty() {
+                    break;
+                }
+            }
+        }
+    }
     // F-limit: the branch limit strikes in the middle of an execution (a panic raised by loom
     // itself, from inside an operation); with exactly the needed capacity nothing changes
     let mut limit_faults = 0u64;
@@ -308,6 +343,7 @@ fn run_c06_case_inner(p: &Program, cfg: &Config, max_iters_for_injection: usize,
         }
     }
     rep.extra.insert("fault_assert_panic_fired".into(), assert_faults);
+    rep.extra.insert("fault_panic_at_branch_limit_fired".into(), two_faults);
     rep.extra.insert("unwinding_threads_with_real_drops".into(), REAL_DROP_UNWINDS.with(|c| c.replace(0)));
     rep.extra.insert("fault_branch_limit_fired".into(), limit_faults);
     rep.extra.insert("fault_panic_configured".into(), injected);
